@@ -1,7 +1,136 @@
 import KitModel.Go.Prelude
-/-! Driver for property C18: `kitdrv C18` reads op lines on stdin, one answer line per input line. -/
+import KitModel.Dir
+/-!
+Driver for property C18: `kitdrv C18` reads op lines on stdin, one answer line per input line.
+
+  reset base=<path>                       fresh world: empty file system, no live Dir
+  raw op=<mkdirAll|writeFile|remove|removeIfExists|symlink|rename|removeAll> p=.. [b=hex] [to=..] [o=.. n=..]
+  write files=<hexname>:<hexbytes>,...    one complete Write by the live Dir (files in iteration order)
+  crash k=<n> files=...                   a Write killed after n fs operations; next Dir is fresh
+  steps                                   the model's step order (for the log)
+
+Answer: `err=<nil|ERRNO> tree=<sorted entries> target=<absent|dangling|other|dir:name=hex,...> vers=<ids>`.
+Paths: components joined by `/`; `@T` target name, `@T.new`, `@v<n>` version directory of Write n.
+-/
 namespace Driver.C18
+open Kit Kit.Dir
+
+def safeChar (c : Char) : Bool :=
+  c.isAlphanum || c == '.' || c == '_' || c == '-'
+
+def showName : Name → String
+  | .str s => if s.toList.all safeChar && s ≠ "" then s else "%" ++ toHex s.toUTF8.toList
+  | .ver n => s!"@v{n}"
+  | .tgt => "@T"
+  | .tgtNew => "@T.new"
+
+def showPath (p : Path) : String := "/".intercalate (p.map showName)
+
+def parseName (s : String) : Option Name :=
+  if s == "@T" then some .tgt
+  else if s == "@T.new" then some .tgtNew
+  else if s.startsWith "@v" then (s.drop 2).toString.toNat?.map .ver
+  else if s.startsWith "%" then
+    (fromHex (s.drop 1).toString).bind fun bs =>
+      (String.fromUTF8? (ByteArray.mk bs.toArray)).map .str
+  else if s == "" then none
+  else some (.str s)
+
+def parsePath (s : String) : Option Path :=
+  if s == "" then some [] else (s.splitOn "/").mapM parseName
+
+def parseFiles (s : String) : Option Files :=
+  if s == "" then some [] else
+  (s.splitOn ",").mapM fun item =>
+    match item.splitOn ":" with
+    | [n, b] => do
+      let nb ← fromHex n
+      let nm ← String.fromUTF8? (ByteArray.mk nb.toArray)
+      let bs ← fromHex b
+      pure (Name.str nm, bs)
+    | _ => none
+
+def showNode : Node → String
+  | .dir => "d"
+  | .file b => "f:" ++ toHex b
+  | .link t => "l:" ++ showPath t
+
+def showTree (fs : FS) : String :=
+  let ents := fs.map fun e => showPath e.1 ++ "|" ++ showNode e.2
+  ";".intercalate (ents.toArray.qsort (· < ·)).toList
+
+def showErr : Option Errno → String
+  | none => "nil"
+  | some e => (reprStr e).replace "Kit.Dir.Errno." ""
+
+def showTarget (fs : FS) (B : Path) : String :=
+  match resolve fs (target B) with
+  | none => if look fs (target B) = none then "absent" else "dangling"
+  | some (d, .dir) =>
+    let ents := (readDir fs d).map fun (nm, nd) => showName nm ++ "=" ++ showNode nd
+    "dir:" ++ ",".intercalate (ents.toArray.qsort (· < ·)).toList
+  | some _ => "other"
+
+structure DState where
+  B : Path := []
+  s : St := {}
+
+def answer (d : DState) (err : Option Errno) : String :=
+  let vers := ((versionIds d.s.fs d.B).toArray.qsort (· < ·)).toList
+  s!"err={showErr err} tree={showTree d.s.fs} target={showTarget d.s.fs d.B} vers={showNats vers}"
+
+def rawOp (l : Line) : Option Op := do
+  let op ← l.get? "op"
+  let path (k : String) : Option Path := (l.get? k).bind parsePath
+  match op with
+  | "mkdirAll" => return .mkdirAll (← path "p")
+  | "writeFile" => return .writeFile (← path "p") (← l.hex? "b")
+  | "removeIfExists" => return .removeIfExists (← path "p")
+  | "symlink" => return .symlink (← path "to") (← path "p")
+  | "rename" => return .rename (← path "o") (← path "n")
+  | "removeAll" => return .removeAll (← path "p")
+  | _ => none
+
+def stepLine (d : DState) (line : String) : DState × String :=
+  let l := parseLine line
+  match l.op with
+  | "reset" =>
+    match (l.get? "base").bind parsePath with
+    | some B => let d' : DState := { B := B, s := {} }; (d', answer d' none)
+    | none => (d, "bad-input")
+  | "raw" =>
+    if l.get? "op" == some "remove" then
+      match (l.get? "p").bind parsePath with
+      | some p =>
+        match Dir.remove d.s.fs p with
+        | .ok fs' => let d' := { d with s := { d.s with fs := fs' } }; (d', answer d' none)
+        | .error e => (d, answer d (some e))
+      | none => (d, "bad-input")
+    else
+    match rawOp l with
+    | some op =>
+      match op.apply d.s.fs with
+      | .ok fs' => let d' := { d with s := { d.s with fs := fs' } }; (d', answer d' none)
+      | .error e => (d, answer d (some e))
+    | none => (d, "bad-input")
+  | "write" =>
+    match (l.get? "files").bind parseFiles with
+    | some files =>
+      let s' := step d.B d.s (.write files)
+      let d' := { d with s := s' }
+      (d', answer d' s'.lastErr)
+    | none => (d, "bad-input")
+  | "crash" =>
+    match (l.get? "files").bind parseFiles, l.nat? "k" with
+    | some files, some k =>
+      let s' := step d.B d.s (.crash files k)
+      let d' := { d with s := s' }
+      (d', answer d' s'.lastErr)
+    | _, _ => (d, "bad-input")
+  | "steps" => (d, (reprStr fixedSteps).replace "\n" " ")
+  | _ => (d, "bad-input")
+
 def main (_args : List String) : IO UInt32 := do
-  IO.eprintln "kitdrv: C18 has no model driver yet"
-  return 2
+  Kit.lineLoop stepLine ({} : DState)
+  return 0
 end Driver.C18
